@@ -117,3 +117,17 @@ Definition py_rotl {A} (l : list A) : list A :=
 
 Definition py_min_list (l : list Q) : Q := match l with [] => 0 | x :: r => fold_left Qmin r x end.
 Definition py_max_list (l : list Q) : Q := match l with [] => 0 | x :: r => fold_left Qmax r x end.
+
+(* `while c: b` with an explicit bound on the number of iterations; when the fuel runs out the current state is returned
+   (theorems exclude that case by assuming enough fuel) *)
+Fixpoint py_while {S : Type} (fuel : nat) (c : S -> bool) (b : S -> S) (s : S) : S :=
+  match fuel with
+  | O => s
+  | Datatypes.S k => if c s then py_while k c b (b s) else s
+  end.
+
+(* Python 3 round(): to the nearest integer, ties to even *)
+Definition py_round (x : Q) : Z :=
+  let f := Qfloor x in
+  let r := x - inject_Z f in
+  if Qlt_bool r (1#2) then f else if Qlt_bool (1#2) r then (f + 1)%Z else if Z.even f then f else (f + 1)%Z.
